@@ -32,6 +32,10 @@ macro_rules! digits {
 }
 
 fn main() {
+    vengine::on_worker_stack(real_main);
+}
+
+fn real_main() {
     let mut run = Run::from_args("C13", "c13");
     run.known_fn = Some(casts::known_c13);
     vcore::quick_types!(bnum_pairs, &mut run);
